@@ -653,7 +653,60 @@ def compare(ctx, case, opt, gnu_out, clone_out, what=None, mark=None, tag='', in
 # ---------------------------------------------------------------------------
 # run_case
 
+def run_pair(ctx, case):
+    """Two ReadElf objects of files of different machines alive in one process, their debug dumps interleaved: every dump equals the dump a
+    fresh object gives for the same file and option (which the corpus layer compares with GNU readelf)."""
+    P = proj()
+    paths = [os.path.join(core.REPO, case['fileA']), os.path.join(core.REPO, case['fileB'])]
+    if any(not os.path.isfile(p) or os.path.getsize(p) == 0 for p in paths):
+        ctx.count('pair.skipped-empty-file')
+        ctx.case(core.dumps(case), False)
+        return
+    fresh = {}
+
+    def fresh_dump(i, what):
+        if (i, what) not in fresh:
+            try:
+                fresh[(i, what)] = run_clone(paths[i], '--debug-dump=' + what)
+            except Exception as e:  # noqa
+                fresh[(i, what)] = 'raises %s' % type(e).__name__
+        return fresh[(i, what)]
+    for i in (0, 1):
+        for what in case['dumps']:
+            fresh_dump(i, what)
+    dd = P['dwarf_descr']
+    dd._MACHINE_ARCH = None
+    saved_err = sys.stderr
+    sys.stderr = io.StringIO()
+    fa, fb = open(paths[0], 'rb'), open(paths[1], 'rb')
+    try:
+        outs = [io.StringIO(), io.StringIO()]
+        objs = [P['ReadElf'](fa, outs[0]), P['ReadElf'](fb, outs[1])]
+        for step, (i, what) in enumerate(case['history']):
+            before = len(outs[i].getvalue())
+            try:
+                objs[i].display_debug_dump(what)
+                got = outs[i].getvalue()[before:]
+            except Exception as e:  # noqa
+                got = 'raises %s' % type(e).__name__
+            if got != fresh_dump(i, what):
+                g, f_ = got.splitlines(), fresh_dump(i, what).splitlines()
+                k = next((n for n, (x, y) in enumerate(zip(g, f_)) if x != y), min(len(g), len(f_)))
+                ctx.fail('pair|--debug-dump=%s|differs-from-a-fresh-object' % what, 'step %d (%s of %s, after dumps of the other file): line %d is %r, a fresh object prints %r' % (
+                    step, what, os.path.basename(paths[i]), k, g[k] if k < len(g) else None, f_[k] if k < len(f_) else None), case)
+                break
+    finally:
+        sys.stderr = saved_err
+        fa.close()
+        fb.close()
+        dd._MACHINE_ARCH = None
+    ctx.count('pair.histories')
+    ctx.case(core.dumps(case), True, {'kind': 'pair', 'files': [case['fileA'], case['fileB']], 'steps': len(case['history'])})
+
+
 def run_case(ctx, case):
+    if case.get('kind') == 'pair':
+        return run_pair(ctx, case)
     P = proj()
     if not have_readelf():
         ctx.count('oracle.absent')
@@ -1935,6 +1988,12 @@ _SWEEP = {}
 def sweep(tier):
     if tier not in _SWEEP:
         cases = corpus_cases() + synth_cases(tier)
+        # two objects of different machines alive at once, debug dumps interleaved
+        pairs = [('exe_simple64.elf', 'aarch64-pac-bti.elf'), ('exe_simple32.elf', 'exe_simple64.elf'), ('aarch64-pac-bti.elf', 'dwarf_gnuops4.so.elf'),
+                 ('simple_armhf_gcc.o.elf', 'penalty_64_gcc.o.elf')]
+        for a, b in pairs[:2 if tier == 'quick' else 4]:
+            hist = [[0, 'frames-interp'], [1, 'frames-interp'], [0, 'frames-interp'], [0, 'frames'], [1, 'frames'], [0, 'frames'], [1, 'frames-interp'], [0, 'loc'], [1, 'loc'], [0, 'loc']]
+            cases.append({'kind': 'pair', 'fileA': CORPUS_DIR + '/' + a, 'fileB': CORPUS_DIR + '/' + b, 'dumps': ['frames-interp', 'frames', 'loc'], 'history': hist})
         # interleave so that the 16 shards (case i goes to shard i % 16) get equal shares of the slow corpus dumps
         _SWEEP[tier] = cases
     return _SWEEP[tier]
